@@ -729,6 +729,39 @@ def forbidden_ident_schema(idx, ident, pos):
     return s
 
 
+def overflow_id_schema(idx, where):
+    """class e: the derive macros compute `id + 1` for the next default id; with id = u32::MAX
+    (or u32::MAX - 1 followed by the fallback, which takes the default id) the proc macro panics
+    in builds with overflow checks (the dev profile)"""
+    s = second_schema("e", idx, where=where)
+    if where == "struct_field":
+        s.defs = [
+            Def(
+                "struct",
+                "T",
+                fields=[{"name": "x", "id": 4294967295, "req": True, "ty": ("u8",), "doc": []}],
+                fallback=None,
+            )
+        ]
+    elif where == "enum_variant":
+        s.defs = [Def("enum", "E", variants=[{"name": "A", "id": 4294967295, "ty": None, "doc": []}], fallback=None)]
+    elif where == "struct_before_fallback":
+        s.defs = [
+            Def(
+                "struct",
+                "T",
+                fields=[{"name": "x", "id": 4294967294, "req": False, "ty": ("u8",), "doc": []}],
+                fallback="rest",
+            )
+        ]
+    else:
+        s.defs = [Def("enum", "E", variants=[{"name": "A", "id": 4294967294, "ty": None, "doc": []}], fallback="Other")]
+    return s
+
+
+E_SITES = ["struct_field", "enum_variant", "struct_before_fallback", "enum_before_fallback"]
+
+
 def second_stream(seed, tier):
     r = random.Random(seed * 7919 + 13)
     out = []
@@ -750,4 +783,6 @@ def second_stream(seed, tier):
         for pos in poss:
             out.append(forbidden_ident_schema(i, ident, pos))
             i += 1
+    for i, w in enumerate(E_SITES if tier == "thorough" else r.sample(E_SITES, 2)):
+        out.append(overflow_id_schema(i, w))
     return out
